@@ -316,40 +316,53 @@ class ModelCompiler:
     @staticmethod
     def extract(model, focus):
         extracted_model = Model()
+        # Addresses of cells that still have to be copied, together with
+        # everything they depend on.
+        pending = []
+
+        def add_range(rng):
+            for row in rng.cells:
+                pending.extend(row)
+
+        def add_defined_name(name):
+            if name in extracted_model.defined_names:
+                return
+            extracted_model.defined_names[name] = defn = copy.deepcopy(
+                model.defined_names[name])
+            if isinstance(defn, xltypes.XLCell):
+                pending.append(defn.address)
+            elif isinstance(defn, xltypes.XLRange):
+                add_range(defn)
 
         for address in focus:
             if isinstance(address, str) and address in model.cells:
-                extracted_model.cells[address] = copy.deepcopy(
-                    model.cells[address])
-
+                pending.append(address)
             elif isinstance(address, str) and address in model.defined_names:
+                add_defined_name(address)
 
-                extracted_model.defined_names[address] = defn = copy.deepcopy(
-                    model.defined_names[address])
-
-                if isinstance(defn, xltypes.XLCell):
-                    extracted_model.cells[defn.address] = copy.deepcopy(
-                        model.cells[defn.address])
-
-                elif isinstance(defn, xltypes.XLRange):
-                    for row in defn.cells:
-                        for column in row:
-                            extracted_model.cells[column] = copy.deepcopy(
-                                model.cells[column])
-
-        terms_to_copy = []
-        for addr, cell in extracted_model.cells.items():
-            if cell.formula is not None:
-                for term in cell.formula.terms:
-                    if (term in extracted_model.cells
-                            and cell.formula != model.cells[addr].formula):
-                        cell.formula = copy.deepcopy(model.cells[addr].formula)
-
-                    elif term not in extracted_model.cells:
-                        terms_to_copy.append(term)
-
-        for term in terms_to_copy:
-            extracted_model.cells[term] = copy.deepcopy(model.cells[term])
+        while pending:
+            address = pending.pop()
+            if address in extracted_model.cells or address not in model.cells:
+                continue
+            extracted_model.cells[address] = cell = copy.deepcopy(
+                model.cells[address])
+            if cell.formula is None:
+                continue
+            if address in model.formulae:
+                extracted_model.formulae[address] = cell.formula
+            # Follow the references of the formula: ranges, defined names
+            # and plain cells.
+            for term in cell.formula.terms:
+                name = term.split('!')[-1]
+                if term in model.ranges:
+                    extracted_model.ranges[term] = copy.deepcopy(
+                        model.ranges[term])
+                    add_range(model.ranges[term])
+                elif term not in model.cells \
+                        and name in model.defined_names:
+                    add_defined_name(name)
+                else:
+                    pending.append(term)
 
         extracted_model.build_code()
 
